@@ -43,3 +43,9 @@ Section Assoc.
     | (k', v') :: t => if eqb k k' then (k, v) :: t else (k', v') :: aset t k v
     end.
 End Assoc.
+
+(** C01 vocabulary: NumPy's dtype.byteorder flag, sys.byteorder, and what the writer does with the array. *)
+Inductive border := BNative | BBig | BLittle | BNone | BOther.
+Inductive sysorder := SysBig | SysLittle | SysOther.
+Inductive action := Keep | Swap | Raise.
+Inductive dump_order := OrderC | OrderF | OrderA | OrderK.
